@@ -55,12 +55,20 @@ var specs = map[string]fnSpec{
 	"Revoke": {"authority/tls.go", "Authority", map[string]string{"GetCertificate": "readCert", "LoadProvisionerByToken": "check",
 		"LoadProvisionerByCertificate": "@LoadProvisionerByCertificate", "revokeSSH": "storeRev", "RevokeCertificate": "casRevoke", "revoke": "storeRev"}},
 	"signSSH": {"authority/ssh.go", "Authority", map[string]string{"Valid": "check", "callEnrichingWebhooksSSH": "enrich",
-		"isAllowedToSignSSHCertificate": "check", "callAuthorizingWebhooksSSH": "authorize", "CreateCertificate": "casSign",
+		"isAllowedToSignSSHCertificate": "check", "callAuthorizingWebhooksSSH": "authorize", "CreateCertificate": "sshSign",
 		"storeSSHCertificate": "store"}},
-	"renewSSH": {"authority/ssh.go", "Authority", map[string]string{"authorizeSSHCertificate": "isRevoked", "CreateCertificate": "casSign",
+	"renewSSH": {"authority/ssh.go", "Authority", map[string]string{"authorizeSSHCertificate": "isRevoked", "CreateCertificate": "sshSign",
 		"storeRenewedSSHCertificate": "store"}},
-	"rekeySSH": {"authority/ssh.go", "Authority", map[string]string{"authorizeSSHCertificate": "isRevoked", "CreateCertificate": "casSign",
+	"rekeySSH": {"authority/ssh.go", "Authority", map[string]string{"authorizeSSHCertificate": "isRevoked", "CreateCertificate": "sshSign",
 		"Valid": "check", "storeRenewedSSHCertificate": "store"}},
+	"FinalizeOrder": {"acme/api/order.go", "", map[string]string{"accountFromContext": "check", "provisionerFromContext": "check",
+		"payloadFromContext": "check", "Unmarshal": "check", "Validate": "check", "GetOrder": "acmeRead", "Finalize": "finalize"}},
+	"PKIOperation": {"scep/api/api.go", "", map[string]string{"ParsePKIMessage": "check", "Parse": "check", "DecryptPKIEnvelope": "check",
+		"ValidateChallenge": "validate", "SignCSR": "signCSR", "NotifyFailure": "notify", "NotifySuccess": "notify"}},
+	"SignCSR": {"scep/authority.go", "Authority", map[string]string{"DecryptPKIEnvelope": "check", "AuthorizeSign": "check",
+		"TemplateOptions": "check", "SignWithContext": "sign", "DegenerateCertificates": "check", "encrypt": "check",
+		"NewSignedData": "check", "selectSigner": "check", "AddSigner": "check", "Finish": "check"}},
+	"Validate": {"authority/provisioner/scep.go", "challengeValidationController", map[string]string{"NewRequestBody": "check", "DoWithContext": "challenge"}},
 	"Finalize": {"acme/order.go", "Order", map[string]string{"UpdateStatus": "status", "getAuthorizationFingerprint": "acmeRead",
 		"AuthorizeSign": "check", "SignWithContext": "sign", "CreateCertificate": "acmeStoreCert", "UpdateOrder": "acmeUpdateOrder"}},
 }
@@ -113,6 +121,40 @@ func mentionsNotImplemented(e ast.Expr) bool {
 }
 
 // guardOf classifies an `if` that tests the error of a watched call.
+// isZero: the literal nil or an empty composite literal (Response{}).
+func isZero(e ast.Expr) bool {
+	if isIdent(e, "nil") {
+		return true
+	}
+	cl, ok := e.(*ast.CompositeLit)
+	return ok && len(cl.Elts) == 0
+}
+
+func hasReturn(b *ast.BlockStmt) bool {
+	found := false
+	ast.Inspect(b, func(n ast.Node) bool {
+		if _, ok := n.(*ast.FuncLit); ok {
+			return false
+		}
+		if _, ok := n.(*ast.ReturnStmt); ok {
+			found = true
+		}
+		return true
+	})
+	return found
+}
+
+func callsRenderError(b *ast.BlockStmt) bool {
+	for _, st := range b.List {
+		if es, ok := st.(*ast.ExprStmt); ok {
+			if c, ok := es.X.(*ast.CallExpr); ok && calleeName(c) == "Error" {
+				return true
+			}
+		}
+	}
+	return false
+}
+
 func guardOf(ifs *ast.IfStmt) string {
 	if errCmp(ifs.Cond, token.EQL) && !errCmp(ifs.Cond, token.NEQ) {
 		return "?" // only the success branch is used
@@ -120,8 +162,8 @@ func guardOf(ifs *ast.IfStmt) string {
 	if !errCmp(ifs.Cond, token.NEQ) {
 		return "#nocheck"
 	}
-	if len(ifs.Body.List) == 0 {
-		return "?"
+	if len(ifs.Body.List) == 0 || !hasReturn(ifs.Body) {
+		return "?" // the error does not end the function
 	}
 	ret := lastReturn(ifs.Body)
 	if ret == nil {
@@ -135,12 +177,20 @@ func guardOf(ifs *ast.IfStmt) string {
 	}
 	n := len(ret.Results)
 	if n == 0 {
+		if callsRenderError(ifs.Body) { // HTTP handler: render.Error(w, r, err); return
+			return "!"
+		}
 		return "#nakedreturn"
+	}
+	if n == 1 {
+		if c, ok := ret.Results[0].(*ast.CallExpr); ok && strings.HasPrefix(calleeName(c), "createFailure") {
+			return "!" // SCEP: a signed failure reply
+		}
 	}
 	if isIdent(ret.Results[n-1], "nil") {
 		return "#returnsnil"
 	}
-	if n > 1 && !isIdent(ret.Results[0], "nil") {
+	if n > 1 && !isZero(ret.Results[0]) {
 		return "#returnsvalue"
 	}
 	if mentionsNotImplemented(ifs.Cond) {
@@ -348,7 +398,7 @@ func (x *extractor) stmt(st ast.Stmt, rest []ast.Stmt, sp fnSpec, hasResults boo
 		if len(cs) > 0 {
 			return
 		}
-		if n := len(s.Results); (n > 0 && isIdent(s.Results[n-1], "nil")) || (n == 0 && !hasResults) {
+		if n := len(s.Results); n > 0 && isIdent(s.Results[n-1], "nil") {
 			x.out = append(x.out, "ret")
 		}
 	case *ast.BlockStmt:
@@ -368,6 +418,9 @@ func (x *extractor) stmt(st ast.Stmt, rest []ast.Stmt, sp fnSpec, hasResults boo
 	case *ast.ExprStmt:
 		for _, c := range watchedCalls(s, sp) {
 			x.emit(sp, c, "#discarded")
+		}
+		if c, ok := s.X.(*ast.CallExpr); ok && !hasResults && (calleeName(c) == "JSON" || calleeName(c) == "JSONStatus") {
+			x.out = append(x.out, "ret") // HTTP handler: the success response
 		}
 	case *ast.DeclStmt, *ast.DeferStmt, *ast.GoStmt:
 		for _, c := range watchedCalls(s, sp) {
